@@ -50,6 +50,9 @@ HEX = "0123456789abcdef"
 _real_ascii = builtins.ascii
 _real_hasattr = builtins.hasattr
 _real_type = builtins.type
+_real_setattr = builtins.setattr
+_real_repr = builtins.repr
+_real_getattr = builtins.getattr
 
 
 def py_ascii(obj):
@@ -139,11 +142,106 @@ def setup(models=()):
     _SETUP_DONE = True
     from crosshair import core as chcore
 
+    # CrossHair bug: looking for class contracts it assumes every function stored in a class has
+    # a first parameter; a parameter-less function attribute (lam = lambda: 1) makes it raise
+    # IndexError into the code under test.  Tolerate empty signatures.
+    try:
+        import crosshair.condition_parser as _cp
+        import crosshair.fnutil as _fu
+
+        _orig_sfat = _fu.set_first_arg_type
+
+        def _safe_set_first_arg_type(sig, first_arg_type):
+            if not sig.parameters:
+                return sig
+            return _orig_sfat(sig, first_arg_type)
+
+        _fu.set_first_arg_type = _safe_set_first_arg_type
+        _cp.set_first_arg_type = _safe_set_first_arg_type
+    except Exception:  # pragma: no cover
+        pass
+
+    # Contract enforcement (looking up PEP-316 contracts of every callee, and replacing every
+    # class call by a "manual constructor") is pointless for the programs under test -- they
+    # carry no contracts -- and its introspection raises into user code for metaclass calls and
+    # for methods whose __class__ cell is still empty.  Switch it off for frames of the programs
+    # under test and of this runtime.
+    try:
+        import crosshair.enforce as _enf
+
+        _orig_wants = _enf.EnforcedConditions.wants_codeobj
+
+        def _wants_codeobj(self, codeobj):
+            fname = codeobj.co_filename
+            if fname in ("<source>", "<converted>", "<string>") or fname.endswith(("vf/rt.py", "vf/kernels.py")):
+                return False
+            return _orig_wants(self, codeobj)
+
+        _enf.EnforcedConditions.wants_codeobj = _wants_codeobj
+    except Exception:  # pragma: no cover
+        pass
+
     reg = chcore._PATCH_REGISTRATIONS
     if "ascii" in models:
         reg[_real_ascii] = py_ascii
     if "hasattr" in models:
         reg[_real_hasattr] = model_hasattr
+    # CrossHair's getattr/setattr/hasattr patches run the real builtin with tracing OFF, so user
+    # code reached through descriptors (property setters, __getattr__/__setattr__ hooks) would run
+    # untraced and crash on symbolic data.  For ordinary objects and concrete names the real
+    # builtin is called with tracing left ON (a call to the original made from the registered
+    # patch itself is not intercepted again).
+    try:
+        from crosshair.core import SymbolicValue as _SV
+    except Exception:  # pragma: no cover
+        from crosshair.util import CrossHairValue as _SV
+    ch_setattr = reg.get(_real_setattr)
+    ch_getattr = reg.get(_real_getattr)
+    ch_hasattr = reg.get(_real_hasattr)
+
+    def setattr_model(obj, name, value):
+        with NoTracing():
+            plain = _real_type(name) is str and not isinstance(obj, _SV)
+        if plain:
+            return _real_setattr(obj, name, value)
+        return ch_setattr(obj, name, value)
+
+    def getattr_model(obj, name, *default):
+        with NoTracing():
+            plain = _real_type(name) is str and not isinstance(obj, _SV)
+        if plain:
+            return _real_getattr(obj, name, *default)
+        return ch_getattr(obj, name, *default)
+
+    def hasattr_model(obj, name):
+        with NoTracing():
+            plain = _real_type(name) is str and not isinstance(obj, _SV)
+        if plain:
+            return _real_hasattr(obj, name)
+        return ch_hasattr(obj, name)
+
+    if ch_setattr is not None:
+        reg[_real_setattr] = setattr_model
+    if ch_getattr is not None:
+        reg[_real_getattr] = getattr_model
+    if ch_hasattr is not None and "hasattr" not in models:
+        reg[_real_hasattr] = hasattr_model
+    # CrossHair's repr patch carries a contract (post[]: True) and is therefore short-circuited
+    # at random with an uninterpreted result, which turns every path through repr() into UNKNOWN.
+    # Same behaviour without the contract:
+    try:
+        from crosshair.libimpl.builtinslib import invoke_dunder as _invoke_dunder
+
+        def repr_model(obj):
+            with NoTracing():
+                plain = _plain(obj)
+            if plain:
+                return _real_repr(obj)
+            return _invoke_dunder(obj, "__repr__")
+
+        reg[_real_repr] = repr_model
+    except Exception:  # pragma: no cover
+        pass
     ch_type = reg.get(_real_type)
 
     if ch_type is not None:
@@ -368,7 +466,12 @@ def canon(v, depth=0, seen=None):
             with NoTracing():
                 names = sorted(n for n in v.__dict__ if n not in _CLASS_ATTR_SKIP)
             for n in names:
-                attrs.append((n, canon(v.__dict__[n], depth + 1, seen)))
+                member = v.__dict__[n]
+                if n in ("__new__", "__init_subclass__", "__class_getitem__") and isinstance(member, (staticmethod, classmethod)):
+                    # type.__new__ wraps these implicitly when they are in the namespace at class
+                    # creation; a plain function installed later behaves the same when called
+                    member = member.__func__
+                attrs.append((n, canon(member, depth + 1, seen)))
             return (
                 "<class>",
                 v.__name__,
@@ -603,7 +706,9 @@ class Env:
             names = sorted(
                 k
                 for k in self.g
-                if k not in self.base and not (isinstance(k, str) and k.startswith("__ol_"))
+                if k not in self.base
+                and not (isinstance(k, str) and k.startswith("__ol_"))
+                and not (isinstance(k, str) and k.startswith("__") and k.endswith("__"))  # module metadata (__annotations__ ...)
             )
             if src_keys is not None:
                 names = [
@@ -660,7 +765,7 @@ def _direct_call(f, args, kwargs):
 HOOKS["call_f"] = hook_call_f
 
 
-def run_side(code, mode, inputs, observe="trace+globals", budget=60, src_keys=None, real_print=None, extra=None, hook=None, meta=None):
+def run_side(code, mode, inputs, observe="trace+globals", budget=60, src_keys=None, real_print=None, extra=None, hook=None, meta=None, ignore=()):
     """Returns ('ok', trace, globals-record) | ('raised', exception type name, trace)."""
     env = Env(inputs, budget=budget, real_print=real_print, extra=extra)
     g = env.g
@@ -677,6 +782,9 @@ def run_side(code, mode, inputs, observe="trace+globals", budget=60, src_keys=No
             tn = _real_type(e).__name__
         return ("raised", tn, tuple(env.trace)), None
     names = env.user_globals(src_keys)
+    if ignore:
+        with NoTracing():
+            names = [n for n in names if n not in ignore]
     if "globals" in observe:
         rec = tuple((n, canon(g[n])) for n in names)
     else:
@@ -704,6 +812,7 @@ class Obligation:
         self.budget = d.get("budget", 60)
         self.hook = d.get("hook")
         self.meta = d.get("meta")
+        self.ignore = tuple(d.get("ignore_globals") or ())
         self.src_code = compile(self.src, "<source>", "exec")
         self.out_code = compile(self.out, "<converted>", "eval")
 
@@ -718,7 +827,7 @@ def coexec(ob, inputs, real_print=None, detail=False):
     """The co-execution obligation: same inputs, same environment, equal observations.
     A source run that raises is outside the supported fragment for that input."""
     count(ob.oid, "paths")
-    a, names = run_side(ob.src_code, "exec", inputs, ob.observe, ob.budget, None, real_print, None, ob.hook, ob.meta)
+    a, names = run_side(ob.src_code, "exec", inputs, ob.observe, ob.budget, None, real_print, None, ob.hook, ob.meta, ob.ignore)
     if a[0] == "raised":
         if detail:
             return True, a, None
@@ -726,7 +835,7 @@ def coexec(ob, inputs, real_print=None, detail=False):
     count(ob.oid, "reached")
     with NoTracing():
         src_keys = set(names) if names is not None else set()
-    b, _ = run_side(ob.out_code, "eval", inputs, ob.observe, ob.budget, src_keys, real_print, None, ob.hook, ob.meta)
+    b, _ = run_side(ob.out_code, "eval", inputs, ob.observe, ob.budget, src_keys, real_print, None, ob.hook, ob.meta, ob.ignore)
     ok = a == b
     if detail:
         return ok, a, b
